@@ -62,7 +62,9 @@ def crafted_items(rng):
     us = [("case", 1, S("abc")), ("none",), ("case", 0, I(7)), ("case", 1, S("")), ("none",), ("case", 0, I(-1))]
     vs = [("seq", [S("a"), S("bb"), S("ccc")]), ("seq", [S("z")]), ("seq", []), ("seq", [S("q"), S("r")])]
     os_ = [("some", recs[0]), ("none",), ("some", recs[1]), ("some", recs[2]), ("none",)]
-    return {"IMaps": [maps, vmaps], "IShapes": [recs, us, vs, os_]}
+    gens = [("seq", [("some", I(5)), I(1)]), ("seq", [("none",), I(2)]), ("seq", [("some", I(7)), I(3)]), ("seq", [("none",), I(4)]),
+            ("seq", [("none",), I(5)])]
+    return {"IMaps": [maps, vmaps], "IShapes": [recs, us, vs, os_], "IGen": [gens]}
 
 
 def run(ctx):
